@@ -20,7 +20,7 @@ func init() {
 	register(&Property{
 		ID: "C15",
 		Explain: "Static necessary conditions for 'the transposition table returns only what was stored for that key'. " +
-			"R1: layout arithmetic from the constants and types.Sizes(gc/amd64): signature lanes fit the key word, match64's three constants are the lane-replicated 1 / lane sign bits for partialKeyBits and its lane index divides by the lane width, bound types fit the bits left of the packed depth and Insert packs with the shift packed.Depth unpacks, Sizeof(bucket)=bucketSize, bucket is pointer-free, re-based mate scores fit Score. " +
+			"R1: layout arithmetic from the constants and types.Sizes(gc/amd64): signature lanes fit the key word, match64's three constants are the lane-replicated 1 / lane sign bits for partialKeyBits and its lane index divides by the lane width, bound types fit the bits left of the packed depth and Insert packs with the shift packed.Depth unpacks and that shift acts on a value-preserving conversion of the byte, Sizeof(bucket)=bucketSize, bucket is pointer-free, re-based mate scores fit Score. " +
 			"R2: LookUp and Insert compute bucket and signature by the same expressions of their hash argument; LookUp returns the entry of the lane match64 reported, of the bucket whose keys it matched; bucketIx is a multiply-high whose result is < len(data). " +
 			"R3: as piecewise functions of (score, ply) — computed from the SSA as sets of scores per adjustment (branch conditions, boolean joins and called chess-3 helpers such as Score.IsMate evaluated over all scores at once; thresholds and strictness compared with each other, not with fixed numbers) — Insert moves scores beyond two thresholds away from zero by ply and entry.Value moves scores beyond the same thresholds back by ply; all other scores unchanged. " +
 			"R4: in Insert the lane compared, the entry overwritten, the lane cleared and the lane set are the same lane; a signature match replaces that lane; the early return can execute only under signature match, non-exact bound, stored depth > d+2 and same generation (path-sensitive simulation over these atoms, independent of how the tests are arranged); a kept move comes only from the signature-matching entry and only when the new move is null; Clear zeroes the signature word of every bucket. " +
@@ -717,6 +717,29 @@ func c15R1(e *c15Env) {
 		}
 		fact(mT == 1<<uint(kD)-1 && maxT <= mT && nT >= 3, "packed#type-mask", e.fn["Type"].Pos(), "packed.Type masks with %#x; must be the %d bits below the depth, and all %d bound-type constants (max %d) must fit, else a bound type bleeds into the stored depth", mT, kD, nT, maxT)
 		maxP := e.intMax(e.named["packed"])
+		// the shift must act on the byte as stored: every conversion between the parameter and the shifted
+		// operand has to preserve all values of packed, else depths in the upper half are sign-extended
+		// (`Depth(p) >> 2` with a signed Depth reads 32..63 back as d-64)
+		if rs := c15Returns(e.fn["Depth"]); len(rs) == 1 && len(rs[0].Results) == 1 {
+			if x, _, okX := c15KBin(stripConv(rs[0].Results[0]), token.SHR); okX {
+				lossy := ""
+				for v := x; ; {
+					if ct, isCT := v.(*ssa.ChangeType); isCT {
+						v = ct.X
+						continue
+					}
+					cv, isC := v.(*ssa.Convert)
+					if !isC {
+						break
+					}
+					if e.intMax(cv.Type()) < maxP {
+						lossy = cv.Type().String()
+					}
+					v = cv.X
+				}
+				fact(lossy == "", "packed#shift-operand", e.fn["Depth"].Pos(), "packed.Depth shifts the byte after converting it to %s, which cannot hold every packed value (max %d): stored depths whose top bit is set are sign-extended before the shift and read back wrong", lossy, maxP)
+			}
+		}
 		fact((maxPl-1)<<uint(kD) <= maxP && maxP>>uint(kD) <= e.intMax(e.named["Depth"]), "packed#depth-fits", e.named["packed"].Obj().Pos(),
 			"depth MaxPlies-1 = %d shifted by %d must fit packed (max %d) and every unpacked depth must fit Depth (max %d)", maxPl-1, kD, maxP, e.intMax(e.named["Depth"]))
 	}
@@ -2380,6 +2403,7 @@ func init() {
 		Mutant{Name: "C15.R1-hi16-lane-dropped", Prop: "C15", File: T, Old: "hi16  = 0x8000_8000_8000_8000", New: "hi16  = 0x8000_8000_8000_0000", Expect: "C15.R1/match64#high-bits"},
 		Mutant{Name: "C15.R1-lane-index-divisor", Prop: "C15", File: T, Old: "bits.TrailingZeros64(mask) / 16, true", New: "bits.TrailingZeros64(mask) / 8, true", Expect: "C15.R1/match64#lane-index"},
 		Mutant{Name: "C15.R1-fifth-bound-type", Prop: "C15", File: T, Old: "\tExact                  // Entry score is exact.\n", New: "\tExact                  // Entry score is exact.\n\tQuiet\n\tStatic\n", Expect: "C15.R1/packed#type-mask"},
+		Mutant{Name: "C15.R1-shift-after-signed-conversion", Prop: "C15", File: T, Old: "return Depth(p >> 2)", New: "return Depth(p) >> 2", Expect: "C15.R1/packed#shift-operand"},
 		Mutant{Name: "C15.R1-pack-shift-3", Prop: "C15", File: T, Old: "packed(d)<<2 | packed(typ)", New: "packed(d)<<3 | packed(typ)", Expect: "C15.R1/packed#shift-agree"},
 		Mutant{Name: "C15.R1-key-bits-12", Prop: "C15", File: T, Old: "partialKeyBits = 16", New: "partialKeyBits = 12", Expect: "C15.R1/partialKey-width"},
 		Mutant{Name: "C15.R1-entry-grows", Prop: "C15", File: T, Old: "\tgen       Gen   // (1 byte)\n", New: "\tgen       Gen   // (1 byte)\n\tage       uint16\n", Expect: "C15.R1/bucket#sizeof"},
